@@ -6,6 +6,7 @@ package main
 // Every call is recorded with its arguments and everything it returned; nothing is judged here.
 
 import (
+	"bytes"
 	"fmt"
 	"math"
 	"math/rand"
@@ -32,6 +33,9 @@ type alTable struct {
 	// EditOf > 0: this table is table EditOf-1 EDITED IN PLACE (the same Go map object with some values overwritten),
 	// at the moment the first call that uses it is made: a caller may tune a matrix between calls
 	EditOf int `json:"editof"`
+	// Shift: the real matrix holds e * 2^Shift for every entry e of Es (exact in binary floating point: scaling by a power of two
+	// commutes with +, max and comparison as long as nothing over- or underflows); scores are recorded divided by 2^Shift
+	Shift int `json:"shift"`
 }
 
 type alCase struct {
@@ -39,6 +43,10 @@ type alCase struct {
 	T  int    `json:"t"`  // index into Tables
 	A  []int  `json:"a"`
 	B  []int  `json:"b"`
+	// Wit: an alignment of A with B written down by the driver (a lower bound of the optimum that costs nothing to check);
+	// Big: the table is too large for the specification's own optimum to be computed per event - judged by C08's rule and Wit
+	Wit []int `json:"wit"`
+	Big bool  `json:"big"`
 }
 
 type alPlan struct {
@@ -64,6 +72,8 @@ type alEvent struct {
 	MSame    bool   `json:"m_same"`
 	SwScore  int    `json:"sw_score"`
 	SwPanic  bool   `json:"sw_panic"`
+	Wit      []int  `json:"wit"`
+	Big      bool   `json:"big"`
 }
 
 func alShippedMatrix(name string) (align.SubstitutionMatrix, bool) {
@@ -130,7 +140,7 @@ func alMaterialize(t *alTable) (align.SubstitutionMatrix, error) {
 	case "seeded":
 		m := align.SubstitutionMatrix{}
 		for _, e := range t.Es {
-			m[[2]byte{byte(e[0]), byte(e[1])}] = float64(e[2])
+			m[[2]byte{byte(e[0]), byte(e[1])}] = math.Ldexp(float64(e[2]), t.Shift)
 		}
 		return m, nil
 	case "shipped":
@@ -175,8 +185,8 @@ func alStepsToInts(s []align.Step) []int {
 }
 
 // alignCall performs one recorded call (and the same call with swapped arguments).
-func alignCall(op string, a, b []byte, m, snap align.SubstitutionMatrix, line int) alEvent {
-	ev := alEvent{Op: op, M: line, A: ints(a), B: ints(b), Steps: []int{}}
+func alignCall(op string, a, b []byte, m, snap align.SubstitutionMatrix, line, shift int) alEvent {
+	ev := alEvent{Op: op, M: line, A: ints(a), B: ints(b), Steps: []int{}, Wit: []int{}}
 	ac, bc := append([]byte{}, a...), append([]byte{}, b...)
 	var score float64
 	ev.Panic, ev.PanicMsg = catch(func() {
@@ -191,6 +201,7 @@ func alignCall(op string, a, b []byte, m, snap align.SubstitutionMatrix, line in
 	if ev.Panic {
 		ev.Steps, ev.Ai, ev.Bi, score = []int{}, 0, 0, 0
 	}
+	score = math.Ldexp(score, -shift)
 	if score != math.Trunc(score) || math.Abs(score) > 1e9 || math.IsNaN(score) {
 		ev.Frac = true
 		score = 0
@@ -209,6 +220,7 @@ func alignCall(op string, a, b []byte, m, snap align.SubstitutionMatrix, line in
 	if ev.SwPanic {
 		sw = 0
 	}
+	sw = math.Ldexp(sw, -shift)
 	if sw != math.Trunc(sw) || math.Abs(sw) > 1e9 || math.IsNaN(sw) {
 		ev.Frac = true
 		sw = 0
@@ -263,7 +275,7 @@ func runAlignPlan(p *alPlan, out string) error {
 				return fmt.Errorf("table %d edits table %d before it exists", c.T, t.EditOf-1)
 			}
 			for _, e := range t.Es {
-				m[[2]byte{byte(e[0]), byte(e[1])}] = float64(e[2])
+				m[[2]byte{byte(e[0]), byte(e[1])}] = math.Ldexp(float64(e[2]), t.Shift)
 			}
 			ms[c.T] = m
 			snap := make(align.SubstitutionMatrix, len(m))
@@ -272,7 +284,12 @@ func runAlignPlan(p *alPlan, out string) error {
 			}
 			snaps[c.T] = snap
 		}
-		tw.emit(alignCall(c.Op, unints(c.A), unints(c.B), ms[c.T], snaps[c.T], c.T+2))
+		ev := alignCall(c.Op, unints(c.A), unints(c.B), ms[c.T], snaps[c.T], c.T+2, p.Tables[c.T].Shift)
+		if c.Wit != nil {
+			ev.Wit = c.Wit
+		}
+		ev.Big = c.Big
+		tw.emit(ev)
 	}
 	return tw.close()
 }
@@ -444,10 +461,10 @@ func (pb *alPlanBuilder) table(t alTable) int {
 
 // call adds Global and (inside Local's domain) Local on the pair.
 func (pb *alPlanBuilder) call(t int, a, b []byte) {
-	pb.p.Cases = append(pb.p.Cases, alCase{"global", t, ints(a), ints(b)})
+	pb.p.Cases = append(pb.p.Cases, alCase{Op: "global", T: t, A: ints(a), B: ints(b)})
 	tb := &pb.p.Tables[t]
 	if tb.Kind != "seeded" || alLocalDomain(tb) {
-		pb.p.Cases = append(pb.p.Cases, alCase{"local", t, ints(a), ints(b)})
+		pb.p.Cases = append(pb.p.Cases, alCase{Op: "local", T: t, A: ints(a), B: ints(b)})
 	}
 }
 
@@ -625,6 +642,88 @@ func buildAlignPlan(prop string) (*alPlan, error) {
 			pb.call(t, x, x)
 		}
 	}
+	// F6: magnitudes. Scores are float64: the same matrices in other units - every entry times 1000003 (partial sums beyond 2^24 that
+	// are not multiples of anything convenient), times 2^-40 and times 2^20 (recorded scaled back, see alTable.Shift)
+	for i, o := range opens(3) {
+		tb := alGenMatrix(r, fmt.Sprintf("units-%d", i), l4, alMatOpts{sym: i%2 == 0, open: o})
+		n, maxLen := 12*rmult, 40
+		switch i {
+		case 0:
+			for _, e := range tb.Es {
+				e[2] *= 1000003
+			}
+			maxLen = 24
+		case 1:
+			tb.Shift = -40
+		default:
+			tb.Shift = 20
+		}
+		t := pb.table(tb)
+		x := alRandSeq(r, l4, 20)
+		pb.call(t, x, x)
+		pb.call(t, x, []byte{})
+		for k := 0; k < n; k++ {
+			a, b := alRelatedPair(r, l4, maxLen)
+			pb.call(t, a, b)
+		}
+	}
+	// F7: the same matrix object tuned in place between calls on tables of more than 1024 and more than 4096 cells
+	for i, o := range opens(2) {
+		base := alGenMatrix(r, fmt.Sprintf("tuned-large-%d-a", i), l4, alMatOpts{sym: i%2 == 0, open: o})
+		t := pb.table(base)
+		var pairs [][2][]byte
+		for k := 0; k < 3; k++ {
+			a := alRandSeq(r, l4, []int{40, 70, 33}[k])
+			pairs = append(pairs, [2][]byte{a, alMutate(r, a, l4, 80)})
+		}
+		for _, pr := range pairs {
+			pb.call(t, pr[0], pr[1])
+		}
+		edited := alGenMatrix(r, fmt.Sprintf("tuned-large-%d-b", i), l4, alMatOpts{sym: i%2 == 0, open: o})
+		edited.EditOf = t + 1
+		t2 := pb.table(edited)
+		for _, pr := range pairs {
+			pb.call(t2, pr[0], pr[1])
+		}
+	}
+	// F8: flanks. a = x^n core, b = core y^n: the best alignment deletes one flank, matches the core and inserts the other flank -
+	// as far from the main diagonal as the table allows. The alignment is written down as a witness; beyond 300 x 300 the event is
+	// judged by the witness and C08's rule only (Big)
+	flanks := []int{30, 120}
+	if big {
+		flanks = append(flanks, 1100, 2100)
+	}
+	for i, o := range opens(2) {
+		tb := alGenMatrix(r, fmt.Sprintf("flank-%d", i), l4, alMatOpts{sym: true, open: o})
+		for _, e := range tb.Es { // dear mismatches, cheap gaps, matches worth having
+			switch {
+			case e[0] == align.Gap && e[1] == align.Gap:
+			case e[0] == align.Gap || e[1] == align.Gap:
+				e[2] = -1
+			case e[0] == e[1]:
+				e[2] = 2
+			default:
+				e[2] = -5
+			}
+		}
+		t := pb.table(tb)
+		for _, n := range flanks {
+			core := 20 + n/6
+			a := append(bytes.Repeat(l4[0:1], n), bytes.Repeat(l4[1:2], core)...)
+			b := append(bytes.Repeat(l4[1:2], core), bytes.Repeat(l4[2:3], n)...)
+			var wit []int
+			for k := 0; k < n; k++ {
+				wit = append(wit, 2)
+			}
+			for k := 0; k < core; k++ {
+				wit = append(wit, 1)
+			}
+			for k := 0; k < n; k++ {
+				wit = append(wit, 3)
+			}
+			pb.p.Cases = append(pb.p.Cases, alCase{Op: "global", T: t, A: ints(a), B: ints(b), Wit: wit, Big: n > 300})
+		}
+	}
 	// F5: every shipped matrix and Levenshtein (gap-open 0: C08 and C09)
 	if pb.wantsOpen(0) {
 		np := 6 * rmult
@@ -673,6 +772,37 @@ func buildAlignPlan(prop string) (*alPlan, error) {
 			for k := 0; k < n; k++ {
 				a, b := alRelatedPair(r, ls, maxLen)
 				pb.call(t, a, b)
+			}
+		}
+		// a complete 256 x 256 matrix that is not Levenshtein: unit costs, but the two cases of a letter are the same letter and a
+		// few substitutions are dearer
+		{
+			var al []int
+			for x := 0; x < 256; x++ {
+				al = append(al, x)
+			}
+			tb := alTable{Name: "caseless-edit-distance", Kind: "seeded", Alpha: al}
+			lw := []byte("acgtn")
+			for x := 0; x < 256; x++ {
+				for y := 0; y < 256; y++ {
+					v := -1
+					switch {
+					case x == y:
+						v = 0
+					case x|0x20 == y|0x20 && bytes.IndexByte(lw, byte(x|0x20)) >= 0:
+						v = 0
+					case x == 'a' && y == 'g', x == 'g' && y == 'a':
+						v = -2
+					}
+					tb.Es = append(tb.Es, []int{x, y, v})
+				}
+			}
+			t := pb.table(tb)
+			ls := []byte("acgtACGTn-")
+			for k := 0; k < 10*rmult; k++ {
+				a, b := alRelatedPair(r, ls, 30)
+				pb.call(t, a, b)
+				pb.call(t, a, bytes.ToUpper(b))
 			}
 		}
 		if prop == "C09" {
